@@ -85,6 +85,9 @@ fn main() {
             for line in stdin.lock().lines() {
                 let line = line.expect("read");
                 writeln!(out, "{}", run_case(&table, &line)).unwrap();
+                // one answer per case, delivered at once: the watchdog of bin/vlib.py blames the first case
+                // without an answer when the process stops answering
+                out.flush().unwrap();
             }
         }
         Some("features") => {
